@@ -6,11 +6,11 @@ package main
 // samples over the whole capacity.
 
 import (
-	"time"
 	"bufio"
 	"fmt"
 	"runtime"
 	"strings"
+	"time"
 
 	"pipelined.dev/signal"
 )
